@@ -1132,7 +1132,8 @@ class Generator:
         elif isinstance(expression, exp.Property):
             sql = self.property_sql(expression)
         else:
-            raise ValueError(f"Unsupported expression type {expression.__class__.__name__}")
+            self.unsupported(f"Unsupported expression type {expression.__class__.__name__}")
+            sql = ""
 
         return self.maybe_comment(sql, expression) if self.comments and comment else sql
 
